@@ -1,4 +1,5 @@
 SPECIFICATION Spec
-CONSTANT N = 3
+CONSTANTS DoubleMembers = FALSE
+ N = 3
 INVARIANTS DecisionSound DecisionExact
 CHECK_DEADLOCK FALSE
